@@ -359,6 +359,11 @@ func (vfs *OrefaFS) Link(oldname, newname string) error {
 		return &os.LinkError{Op: op, Old: oldname, New: newname, Err: vfs.err.NoSuchFile}
 	}
 
+	// The parent of newname must be a directory.
+	if !nParent.isDir() {
+		return &os.LinkError{Op: op, Old: oldname, New: newname, Err: vfs.err.NotADirectory}
+	}
+
 	oChild.mu.Lock()
 	defer oChild.mu.Unlock()
 
@@ -796,6 +801,11 @@ func (vfs *OrefaFS) Rename(oldname, newname string) error {
 
 	if !oChildOk || !oParentOk || !nParentOk {
 		return &os.LinkError{Op: op, Old: oldname, New: newname, Err: vfs.err.NoSuchFile}
+	}
+
+	// The parent of newname must be a directory.
+	if !nParent.mode.IsDir() {
+		return &os.LinkError{Op: op, Old: oldname, New: newname, Err: vfs.err.NotADirectory}
 	}
 
 	if (oChild.mode.IsDir() && nChildOk) || (!oChild.mode.IsDir() && nChildOk && nChild.mode.IsDir()) {
